@@ -52,10 +52,11 @@ const (
 	ckWriteFail    // transport write fails in the sender / sync writer
 	ckHolder       // holder.CloseAll
 	ckShutdown     // bootstrap.Shutdown
+	ckHandlerActive // the handler closes the channel while handling the active event
 	nCloserKinds
 )
 
-var ckNames = []string{"user-task", "handler(event)", "handler(read)", "read-failure", "write-failure", "holder.CloseAll", "Shutdown"}
+var ckNames = []string{"user-task", "handler(event)", "handler(read)", "read-failure", "write-failure", "holder.CloseAll", "Shutdown", "handler(active)"}
 
 //go:norace
 func runC05(e *Env) {
@@ -71,7 +72,18 @@ func runC05(e *Env) {
 		r.done(e, ch.IsActive(), ch.Context().Err())
 	}
 	var readCloseErr error
+	var activeCloseErr error
+	activeClose := e.P(10) == 9
+	if activeClose {
+		activeCloseErr = errors.New("close-error-from-active-handler")
+	}
 	rig := e.NewBRig(cc, useHolder, e.P(3) == 2, func(c netty.Channel, p *Probe) []netty.Handler {
+		if activeClose {
+			p.OnActive = func(ctx netty.ActiveContext) {
+				ch = c
+				recClose("handler(active)", activeCloseErr, func() { ctx.Close(activeCloseErr) })
+			}
+		}
 		p.OnEvent = func(ctx netty.EventContext, ev netty.Event) {
 			if ce, ok := ev.(closeNowEvent); ok {
 				recClose("handler(event)", ce.err, func() { ctx.Close(ce.err) })
@@ -103,7 +115,7 @@ func runC05(e *Env) {
 	kinds := make([]int, nClosers)
 	for i := range kinds {
 		kinds[i] = e.P(nCloserKinds)
-		if kinds[i] == ckHolder && !useHolder {
+		if (kinds[i] == ckHolder && !useHolder) || kinds[i] == ckHandlerActive {
 			kinds[i] = ckUser
 		}
 	}
@@ -118,7 +130,7 @@ func runC05(e *Env) {
 	for _, k := range kinds {
 		desc = append(desc, ckNames[k])
 	}
-	e.Describe("channel=%s holder=%v closers=%v (nil-error: %v) writers=%d inbound-chunks=%d stalls=%v shutdown-racing-connect=%v", cc, useHolder, desc, nilErr, nWriters, feed, e.Sim.StallOK, earlyShutdown)
+	e.Describe("channel=%s holder=%v closers=%v (nil-error: %v) writers=%d inbound-chunks=%d stalls=%v shutdown-racing-connect=%v close-inside-active-handler=%v", cc, useHolder, desc, nilErr, nWriters, feed, e.Sim.StallOK, earlyShutdown, activeClose)
 
 	var connectRet int64
 	var conn *simnet.Conn
